@@ -169,7 +169,7 @@ theorem lightCore_ok_inv (f : Fld) (o : Opts) (hue : List Nat → Hue) (dflt : N
     (calls : List PlotCall) (h : lightCore f o hue dflt flt = .ok calls) :
     ∃ m ext l keep lab, setupMultiplier f o.mult = .ok m ∧ extent f.mesh.region m = .ok ext ∧
       lightSrc f o.aux dflt = .ok l ∧ filterKeep f flt = .ok keep ∧
-      f.mesh.n.any (· = 1) = false ∧ axisLabels f.mesh.region m = .ok lab ∧
+      axisLabels f.mesh.region m = .ok lab ∧
       calls = [.imshowHL (imgOf f.mesh.n keep fun i =>
                   (hue i, normalise (ndaMin ⟨f.mesh.n, l.get⟩) (ndaMax ⟨f.mesh.n, l.get⟩)
                             (o.clim.getD (0, 1)) (l.get i))) "lower" ext, lab] := by
@@ -188,15 +188,9 @@ theorem lightCore_ok_inv (f : Fld) (o : Opts) (hue : List Nat → Hue) (dflt : N
         · rename_i keep hk
           split at h
           · cases h
-          · rename_i h1
-            split at h
-            · cases h
-            · rename_i lab hlab
-              injection h with h
-              refine ⟨m, ext, l, keep, lab, hm, he, hl, hk, ?_, hlab, h.symm⟩
-              cases hb : f.mesh.n.any (· = 1) with
-              | false => rfl
-              | true => exact absurd hb h1
+          · rename_i lab hlab
+            injection h with h
+            exact ⟨m, ext, l, keep, lab, hm, he, hl, hk, hlab, h.symm⟩
 
 theorem angleComps_ok_inv (f : Fld) (cx cy : Nat) (h : angleComps f = .ok (cx, cy)) :
     ∃ lx ly, rDimLast f (f.mesh.region.dims.getD 0 "") = some lx ∧
